@@ -72,7 +72,7 @@ def run(tier):
             # bulk: one statement for all value-expected pairs, executed over a table (column path)
             for i in range(0, len(good), 4000):
                 chunk = good[i:i + 4000]
-                rows = ", ".join(f"({a}, {b})" for a, b in chunk)
+                rows = ", ".join(f"({lit(a, ty)}, {lit(b, ty)})" for a, b in chunk)
                 steps = [{"sql": f"CREATE TEMP TABLE args (a {ty}, b {ty})"}, {"sql": f"INSERT INTO args VALUES {rows}"},
                          {"sql": f"DESCRIBE SELECT {expr} FROM args"}, {"sql": f"SELECT a, b, {expr} FROM args"}]
                 cid = len(cases)
@@ -81,14 +81,14 @@ def run(tier):
             # individually: every error-expected pair, as a folded constant and over a one-row table
             for a, b in bad:
                 cexpr = (f"{lit(a, ty)} {sym} {lit(b, ty)}" if sym else f"{lit(a, ty)} / {lit(b, ty)}, {lit(a, ty)} % {lit(b, ty)}")
-                steps = [{"sql": f"CREATE TEMP TABLE args (a {ty}, b {ty})"}, {"sql": f"INSERT INTO args VALUES ({a}, {b})"},
+                steps = [{"sql": f"CREATE TEMP TABLE args (a {ty}, b {ty})"}, {"sql": f"INSERT INTO args VALUES ({lit(a, ty)}, {lit(b, ty)})"},
                          {"sql": f"DESCRIBE SELECT {expr} FROM args"}, {"sql": f"SELECT {cexpr}"}, {"sql": "SELECT 1"},
                          {"sql": f"SELECT a, b, {expr} FROM args"}]
                 cid = len(cases)
                 cases.append({"id": cid, "rt": {"kind": "threaded", "threads": 2}, "steps": steps, "timeout": 30})
                 meta[cid] = ("single", ty, w, s, op, [(a, b)])
         # unary minus over the whole operand set
-        rows = ", ".join(f"({a}, 0)" for a in vals if not (s and a == lo) and s)
+        rows = ", ".join(f"({lit(a, ty)}, {lit(0, ty)})" for a in vals if not (s and a == lo) and s)
         if rows:
             cid = len(cases)
             cases.append({"id": cid, "rt": {"kind": "threaded", "threads": 2}, "timeout": 60,
@@ -98,13 +98,13 @@ def run(tier):
         if s:
             cid = len(cases)
             cases.append({"id": cid, "rt": {"kind": "threaded", "threads": 2}, "timeout": 30,
-                          "steps": [{"sql": f"CREATE TEMP TABLE args (a {ty}, b {ty})"}, {"sql": f"INSERT INTO args VALUES ({lo}, 0)"},
+                          "steps": [{"sql": f"CREATE TEMP TABLE args (a {ty}, b {ty})"}, {"sql": f"INSERT INTO args VALUES ({lit(lo, ty)}, {lit(0, ty)})"},
                                     {"sql": "DESCRIBE SELECT -a FROM args"}, {"sql": f"SELECT -{lit(lo, ty)}"}, {"sql": "SELECT 1"},
                                     {"sql": "SELECT a, b, -a FROM args"}]})
             meta[cid] = ("single", ty, w, s, "neg", [(lo, 0)])
         # SUM: exact in the announced type or an error
         for name, col in (("sum_small", [1, 2, 3, -4 if s else 4]), ("sum_overflow", [hi, 1]), ("sum_cancel", [hi, lo, hi] if s else [hi, 0, 1])):
-            rows = ", ".join(f"({a}, 0)" for a in col)
+            rows = ", ".join(f"({lit(a, ty)}, {lit(0, ty)})" for a in col)
             cid = len(cases)
             cases.append({"id": cid, "rt": {"kind": "threaded", "threads": 2}, "timeout": 30,
                           "steps": [{"sql": f"CREATE TEMP TABLE args (a {ty}, b {ty})"}, {"sql": f"INSERT INTO args VALUES {rows}"},
@@ -142,6 +142,8 @@ def run(tier):
         else:
             steps = r["steps"]
             rty = rty_of(steps[2]) or (w, s)
+            if steps[1][-1].get("outcome") != "rows":
+                died = {"outcome": "setup-failed", "msg": steps[1][-1].get("msg", "")[:200]}
         R = {"w": rty[0], "s": rty[1]}
 
         def add_line(rec, what, a, b, o):
@@ -154,6 +156,10 @@ def run(tier):
             info[rec["id"]] = {"type": ty, "op": op, "context": what, "a": a, "b": b, "obs": {k: v for k, v in (o or {}).items() if k != "rows"}}
         if kind == "sum":
             o = died or steps[3][-1]
+            if not died and rty_of(steps[2]) is None:
+                # SUM announced with a non-integer type (e.g. Float64 for UBIGINT): outside integer exactness
+                rep.cov["families"].setdefault("sum_non_integer_type", []).append({"type": ty, "announced": steps[2][-1].get("rows")})
+                continue
             row = o["rows"][0] if o.get("outcome") == "rows" and o["rows"] else None
             add_line({"kind": "sum", "vs": [enc(v) for v in data], "out": outrec(o, 0, row)}, "sum:" + op, data, None, o)
             continue
@@ -207,6 +213,8 @@ def run(tier):
         i = info[m["mismatch"]]
         exp = m["exp"]
         cls = "overflow" if exp["k"] == "err" else "value" if exp["k"] == "val" else "division"
+        if i["op"] == "divrem" and i["b"] == -1 and i["a"] is not None and i["a"] < 0 and ((-i["a"]) & (-i["a"] - 1)) == 0 and i["obs"].get("outcome") != "rows":
+            cls = "overflow"
         if i["op"] == "divrem" and i["b"] == 0:
             cls = "division-by-zero"
         obs = i["obs"].get("outcome")
